@@ -109,3 +109,17 @@ def _f3b(prop, sub, v, case):
     # segments raises for labels that are not connected
     return (v.aid == 'polygon_per_label' and v.info.get('disconnected') is True
             and v.info.get('attr') in ('segments', 'polygons'))
+
+
+@pred('F30')
+def _f30(prop, sub, v, case):
+    # fix_pa=True but the PA is rotated by exactly 90 deg when eps crosses 0
+    return (sub == 'fit' and v.aid == 'fixed_pa_changed'
+            and v.info.get('rotated_by_90deg') is True)
+
+
+@pred('F31')
+def _f31(prop, sub, v, case):
+    # build_ellipse_model interpolates PA across 0 <-> pi jumps
+    return (sub == 'fit' and v.aid == 'model_image'
+            and v.info.get('pa_wraps') is True)
